@@ -72,7 +72,8 @@ def endType : P EndType := do
 def jtNum : JoinType → Nat | .square => 0 | .bevel => 1 | .round => 2 | .miter => 3
 def etNum : EndType → Nat | .polygon => 0 | .joined => 1 | .butt => 2 | .square => 3 | .round => 4
 
-/-- `OFFFRAME delta ngroups (jt et paths)*` on a fresh ClipperOffset → final `delta_ group_delta_ join_type_ end_type_` -/
+/-- `OFFFRAME delta ngroups (jt et paths)*` on a fresh ClipperOffset → final `delta_ group_delta_ join_type_ end_type_`
+(delta 0 stands for every |delta| < 0.5: the members keep their initial values) -/
 def offFrame : P String := do
   let delta ← int
   let n ← nat
@@ -82,7 +83,6 @@ def offFrame : P String := do
     -- `AddPaths` ignores an empty path list
     if !ps.isEmpty then gs := gs.push (OffsetState.mkGroup ps jt et)
   done
-  if delta == 0 then throw "delta 0: frame not entered"
   let st := (OffsetState.executeFrames {} delta gs.toList).1
   pure s!"{st.delta} {st.groupDelta} {jtNum st.joinType} {etNum st.endType}"
 
